@@ -29,12 +29,28 @@ pub enum Origin {
     Harness,
 }
 
+const REPO_CRATES: [&str; 8] = ["/chess-bitboard/src/", "/chess-lookup/src/", "/chess-movegen/src/", "/chess-engine/src/", "/chess-api/src/", "/chess-bot/src/", "/tracing-enabled/src/", "/colorz-tracing/src/"];
+
+fn is_repo_path(file: &str) -> bool {
+    REPO_CRATES.iter().any(|c| file.contains(c))
+}
+
+/// path relative to the repository root (so that signatures do not depend on where the tree lives)
+pub fn repo_relative(file: &str) -> String {
+    for c in REPO_CRATES {
+        if let Some(i) = file.find(c) {
+            return file[i + 1..].to_string();
+        }
+    }
+    file.to_string()
+}
+
 fn classify(file: &str, op: &str) -> (Origin, String) {
     // a location inside the repository's sources is repository code
-    if file.starts_with("/repo/") {
+    if is_repo_path(file) {
         return (Origin::Repo, String::new());
     }
-    if file.contains("/verif/") || file.starts_with("chess-sim/") || file.starts_with("src/") {
+    if file.contains("/chess-sim/src/") || file.starts_with("chess-sim/") || file.starts_with("src/") {
         return (Origin::Harness, String::new());
     }
     // std / registry location: look at the call stack for the innermost
@@ -43,10 +59,10 @@ fn classify(file: &str, op: &str) -> (Origin, String) {
     for l in bt.lines() {
         let l = l.trim();
         if let Some(rest) = l.strip_prefix("at ") {
-            if rest.starts_with("/repo/") {
+            if is_repo_path(rest) {
                 return (Origin::Repo, rest.to_string());
             }
-            if rest.contains("/verif/sim/chess-sim/") {
+            if rest.contains("/chess-sim/src/") {
                 // a harness frame comes first: a harness bug, unless we are inside a repository operation
                 // whose frames were inlined away
                 if op == "harness" {
@@ -126,7 +142,7 @@ pub fn trap_violation(claim: Prop, file: &str, line: u32, message: &str, op: &st
         (Prop::C17, "book") | (Prop::C17, "apply") => (Prop::C17, "book.trap"),
         _ => (Prop::C07, if aborted { "trap.abort" } else { "trap.panic" }),
     };
-    let at = file.strip_prefix("/repo/").unwrap_or(file);
+    let at = repo_relative(file);
     Violation {
         prop,
         class: class.to_string(),
